@@ -15,6 +15,7 @@ package main
 
 import (
 	"fmt"
+	"github.com/LindsayBradford/crem/internal/pkg/parameters"
 	"math"
 	"math/big"
 	"os"
@@ -891,7 +892,16 @@ func c09portability(tier string, rng *prng) {
 				m = src.DeepClone()
 				m.Initialise(model.AsIs)
 			} else { // independent construction from the files (Go randomises map iteration per construction)
-				m = c09buildModel(dataset)
+				cm := c09buildModel(dataset)
+				if k%4 == 1 {
+					// an instance of a scenario that configures a variable limit (the saver's decompression model and the
+					// engine's clones inherit it): decoding is not subject to the limit -- whatever order the flags are
+					// applied in, the decoded model holds the encoded set
+					cm.SetParameters(parameters.Map{"MaximumImplementationCost": 1000000.0})
+					cm.Initialise(model.AsIs)
+					c09stats["port_instances_with_a_limit"]++
+				}
+				m = cm
 			}
 			insts = append(insts, m)
 			ks := c09keysOf(m)
